@@ -92,6 +92,16 @@ NEEDS = {
  'C18-e': ('C18', ['C14'], 'TexGroup.parse strips delimiters with lstrip/rstrip: `{{x}}` is coerced to `{x}`, `{\\textbf{a}}` to an unbalanced group'),
  'C19-e': ('C19', ['C12', 'C13'], 'the sizing-command lookup is memoised on Token keys that hash by text only: a later `\\left(` with the same following characters gets the position of the first one (also across tokenisations)'),
  'C20-e': ('C20', [], 'Buffer.peek no longer clamps the stop of a range peek: a range entirely before the start returns items from the front once enough look-ahead is buffered'),
+ 'C01-f': ('C01', ['C08', 'C19'], '`\\~` and `\\^` tokenize as one-character commands instead of escaped symbols: a blank between them and a following group is dropped (`se\\~ {n}or` -> `se\\~{n}or`)'),
+ 'C02-f': ('C02', ['C01'], '`\\item` owns content only in non-math mode, which also excludes the special mode of definition bodies: an `\\item` inside `\\newcommand{..}{..}` owns nothing'),
+ 'C03-f': ('C03', ['C04'], 'find_all returns at once when the text of the search root has no backslash: searches rooted at a backslash-free group / formula / document miss the `$` and BraceGroup nodes below'),
+ 'C04-f': ('C04', ['C03'], 'TexNode.__getitem__ indexes the expression: a SLICE returns bare expressions (no TexNode, parent is not the indexed node)'),
+ 'C05-f': ('C05', ['C15'], 'replace inserts the pieces before removing the child: a replacement list that contains the target itself followed by another piece removes the fresh occurrence (`x.replace_with("[", x, "]")` -> `[]X`)'),
+ 'C11-f': ('C11', ['C12', 'C19'], 'a sizing prefix followed by a backslash and a letter is one token (`\\left\\lvert`): a verbatim body ending in `\\left` hides the closer `\\end{name}` behind the token boundary'),
+ 'C12-f': ('C12', ['C02'], 'in definition bodies a math switch opens a region only if its closer comes before the next `}` (brace nesting ignored): `\\newcommand{\\half}{$\\frac{1}{2}$}` has no math node'),
+ 'C13-f': ('C13', ['C16'], 'read() hands str(tree) instead of the source to the line table: spacers dropped before argument groups shift every later line/column'),
+ 'C14-f': ('C14', ['C15'], 'the .string setter of an environment swaps only the visible text piece: hidden blank-only pieces of the body (`\\begin{quote}\\n\\nwords`) survive next to the new string'),
+ 'C17-f': ('C17', ['C06'], 'read() raises the interpreter recursion limit for sources with many braces and never restores it: a deeply nested document fails before and parses after an unrelated long parse'),
 }
 
 
